@@ -41,50 +41,14 @@ RULE += (' ' +
          'Added in later rounds: unhashable and bytes/bytearray field '
          'values, twins that print differently; map patches shorter than '
          'width x height; generated derived flag enums that add and redefine '
-         'flags (printed names resolved by attribute lookup). ')
-RULE += (' ' +
-         'Added in later rounds: unhashable and bytes/bytearray field '
-         'values, twins that print differently; map patches shorter than '
-         'width x height; generated derived flag enums that add and redefine '
-         'flags (printed names resolved by attribute lookup). Round 11: '
-         'every enum asked for the name of unhashable values. ')
-RULE += (' ' +
-         'Added in later rounds: unhashable and bytes/bytearray field '
-         'values, twins that print differently; map patches shorter than '
-         'width x height; generated derived flag enums that add and redefine '
-         'flags (printed names resolved by attribute lookup). Round 11: '
-         'every enum asked for the name of unhashable values. Round 12: '
-         'pairs of partially populated records (a comparison may be refused; '
-         "an answer 'equal' must be right and hashes then agree). ")
-RULE += (' ' +
-         'Added in later rounds: unhashable and bytes/bytearray field '
-         'values, twins that print differently; map patches shorter than '
-         'width x height; generated derived flag enums that add and redefine '
-         'flags (printed names resolved by attribute lookup). Round 11: '
-         'every enum asked for the name of unhashable values. Round 12: '
-         'pairs of partially populated records (a comparison may be refused; '
-         "an answer 'equal' must be right and hashes then agree). Round 13: "
-         'a generated alias with positional and keyword fields at once. ')
-RULE += (' ' +
-         'Added in later rounds: unhashable and bytes/bytearray field '
-         'values, twins that print differently; map patches shorter than '
-         'width x height; generated derived flag enums that add and redefine '
-         'flags (printed names resolved by attribute lookup). Round 11: '
-         'every enum asked for the name of unhashable values. Round 12: '
-         'pairs of partially populated records (a comparison may be refused; '
-         "an answer 'equal' must be right and hashes then agree). Round 13: "
-         'a generated alias with positional and keyword fields at once. ')
-RULE += (' ' +
-         'Added in later rounds: unhashable and bytes/bytearray field '
-         'values, twins that print differently; map patches shorter than '
-         'width x height; generated derived flag enums that add and redefine '
          'flags (printed names resolved by attribute lookup). Round 11: '
          'every enum asked for the name of unhashable values. Round 12: '
          'pairs of partially populated records (a comparison may be refused; '
          "an answer 'equal' must be right and hashes then agree). Round 13: "
          'a generated alias with positional and keyword fields at once. '
          'Round 15: aliases assigned from iter(), generators, map(), '
-         'reversed(). ')
+         'reversed(). Round 16: ==, !=, hash and set membership of the '
+         'vector types agree with those of plain tuples. ')
 LEVEL_TEXT = ('Model-based testing of the tracker objects over generated '
               'packet histories, and algebraic-law testing of the helper '
               'value types, exhaustive over flag values 0..255 for every '
